@@ -424,7 +424,7 @@ package gohbase
 
 //@ func gohbase.(*scanner).coalesce
 //@   requires partial != nil && result != partial && cellsNonNil(result) && cellsNonNil(partial)
-//@   modifies F.pb.Result.Partial, F.pb.Result.Cell, F.pb.Result.Stale
+//@   modifies object(result)
 //@   panics never[C06,C11]
 // a first fragment is taken as it is; a complete row is never extended; a fragment of another row ends the row being
 // assembled (and is left in the stream); a fragment of the same row is appended, in order
@@ -433,3 +433,92 @@ package gohbase
 //@   ensures[C06] result != nil && r1 ==> r0 == result && len(result.Cell) == old(len(result.Cell)) + len(partial.Cell)
 //@   ensures[C06] result != nil && r1 ==> forall(k, 0 <= k && k < old(len(result.Cell)), result.Cell[k] == old(result.Cell[k])) && forall(k, 0 <= k && k < len(partial.Cell), result.Cell[old(len(result.Cell)) + k] == partial.Cell[k])
 //@   ensures[C06] result != nil && old(result.GetPartial()) && !r1 ==> r0 == result && !result.GetPartial() && sameslice(result.Cell, old(result.Cell))
+
+// ---- scanner termination (C14) ----
+// Ghost closereq = number of explicit close requests issued for region scanners (a `go s.SendRPC(closeRpc)` counts as
+// issued; delivery is the network's). Object invariant: closed ==> no region scanner id is held.
+//@ func gohbase.(*scanner).closeRegionScanner
+//@   requires s.rpc != nil
+//@   modifies F.gohbase.scanner.curRegionScannerID, X.closereq
+//@   panics never[C14]
+// afterwards no region scanner is held; if one was held and the scan request itself did not carry `close`, exactly one
+// explicit close request has been issued for it
+//@   ensures[C14] s.curRegionScannerID == 18446744073709551615
+//@   ensures[C14] ghost("closereq") == old(ghost("closereq")) + ite(old(s.curRegionScannerID) != 18446744073709551615 && !s.rpc.IsClosing(), 1, 0)
+//@   at call NewScanRange#1 ghost closereq == ghost("closereq") + 1
+// (NewScanRange fails only when an option is rejected; ScannerID, CloseScanner and NumberOfRows are valid for scans)
+//@   at call panic#1 assume-shared err == nil
+
+//@ func gohbase.(*scanner).Close$renewCancel()
+//@   modifies X.ctxdone
+
+//@ func gohbase.(*scanner).Close
+//@   requires s.rpc != nil
+//@   modifies F.gohbase.scanner.closed, F.gohbase.scanner.curRegionScannerID, X.closereq, X.ctxdone
+//@   panics never[C14]
+// idempotent; contains no blocking operation (the only send happens in a spawned goroutine); leaves no region scanner open
+//@   ensures[C14] s.closed && r0 == nil
+//@   ensures[C14] old(s.closed) ==> s.curRegionScannerID == old(s.curRegionScannerID) && ghost("closereq") == old(ghost("closereq"))
+//@   ensures[C14] !old(s.closed) ==> s.curRegionScannerID == 18446744073709551615
+
+//@ func gohbase.(*scanner).request
+//@   trusted "builds the scan request for the current position and sends it; does not touch the scanner's own state"
+//@   modifies X.attempts, X.ctxdone, X.regionstate, X.callregion
+//@   ensures r2 == nil ==> r0 != nil && r1 != nil && resultsWF(r0.Results) && forall(k, 0 <= k && k < len(r0.Results), !was(allocated(r0.Results[k])))
+
+//@ func gohbase.(*scanner).shift
+//@   modifies F.gohbase.scanner.results, contents(s.results)
+//@   panics never[C14]
+//@   ensures[C06,C14] forall(k, 0 <= k && k < len(s.results), s.results[k] == old(s.results[k+1]))
+//@   ensures[C06,C14] old(len(s.results)) > 0 ==> sameslice(s.results, old(s.results)[1:])
+//@   ensures[C06,C14] old(len(s.results)) == 0 ==> len(s.results) == 0
+
+//@ pred gohbase.resultsWF(rs) = forall(k, 0 <= k && k < len(rs), rs[k] != nil && cellsNonNil(rs[k])) && forall(p, q, 0 <= p && p < q && q < len(rs), rs[p] != rs[q])
+//@ pred gohbase.scannerWF(s) = s.rpc != nil && (s.closed ==> s.curRegionScannerID == 18446744073709551615) && (s.rpc.TrackScanMetrics() ==> s.scanMetrics != nil) && resultsWF(s.results)
+
+// every error path closes the scanner; `no more results` is answered only by a closed scanner; results are never empty
+//@ func gohbase.(*scanner).fetch
+//@   requires scannerWF(s) && !s.closed
+//@   modifies F.gohbase.scanner.closed, F.gohbase.scanner.curRegionScannerID, F.gohbase.scanner.startRow, V.map[string]int64, D.map[string]int64, C.map[string]int64, X.attempts, X.ctxdone, X.regionstate, X.callregion, X.closereq
+//@   panics never[C14]
+//@   ensures[C14] r1 != nil ==> s.closed && r0 == nil
+//@   ensures[C14] r1 == nil ==> len(r0) > 0 && resultsWF(r0) && forall(k, 0 <= k && k < len(r0), !was(allocated(r0[k])))
+//@   ensures[C14] scannerWF(s)
+//@   loop 1 invariant[C14] scannerWF(s) && !s.closed
+
+//@ func gohbase.(*scanner).peek$renewCancel()
+//@   modifies X.ctxdone
+//@ func gohbase.(*scanner).renewLoop
+//@   trusted "lease renewal goroutine; started only while the scanner is open, cancelled before the next fetch and by Close"
+
+//@ func gohbase.(*scanner).peek
+//@   requires scannerWF(s)
+//@   modifies F.gohbase.scanner.results, F.gohbase.scanner.renewCancel, F.gohbase.scanner.closed, F.gohbase.scanner.curRegionScannerID, F.gohbase.scanner.startRow, V.map[string]int64, D.map[string]int64, C.map[string]int64, X.attempts, X.ctxdone, X.regionstate, X.callregion, X.closereq
+//@   panics never[C14]
+//@   ensures[C14] scannerWF(s)
+//@   ensures[C14] r1 == nil ==> r0 != nil && len(s.results) > 0 && r0 == s.results[0]
+// an error other than end-of-scan leaves the scanner closed; a closed scanner with nothing buffered answers end-of-scan
+//@   ensures[C14] r1 != nil ==> s.closed && r0 == nil && len(s.results) == 0
+//@   ensures[C14] old(s.closed) && old(len(s.results)) == 0 ==> r1 == io.EOF
+// the buffer is either what it was or a batch of results that did not exist before
+//@   ensures[C14] sameslice(s.results, old(s.results)) || forall(k, 0 <= k && k < len(s.results), !was(allocated(s.results[k])))
+//@   ensures[C14] forall(x, was(allocated(x)) && x != nil && forall(j, 0 <= j && j < old(len(s.results)), was(s.results[j]) != x) ==> forall(k, 0 <= k && k < len(s.results), s.results[k] != x))
+
+//@ func gohbase.toLocalResult
+//@   modifies nothing
+//@   ensures (r0 == nil) == (r == nil)
+
+// Next (C14): a closed scanner with nothing buffered answers end-of-scan - also after a cancellation (finding F11);
+// an error or cancellation is reported together with whatever was assembled and leaves the scanner closed, so that the
+// following call answers end-of-scan.
+//@ func gohbase.(*scanner).Next
+//@   requires scannerWF(s)
+//@   panics never[C14]
+//@   ensures[C14] scannerWF(s)
+//@   ensures[C14] old(s.closed) && old(len(s.results)) == 0 ==> r1 == io.EOF && r0 == nil
+//@   ensures[C14] r1 != nil ==> s.closed
+//@   ensures[C14] r1 == nil ==> r0 != nil
+//@   loop 1 invariant[C14] scannerWF(s) && cellsNonNil(result) && (result != nil ==> result.GetPartial())
+//@   loop 1 invariant[C14] forall(k, 0 <= k && k < len(s.results), s.results[k] != result)
+//@   loop 1 invariant[C14] old(s.closed) && old(len(s.results)) == 0 ==> s.closed && len(s.results) == 0 && result == nil
+//@   loop 1 invariant[C14] allocated(result)
